@@ -115,9 +115,11 @@ def build_jobs(ctx, sc, exe, thorough, want_class=("ws",)):
     # every spacing option singly at `remove` (only the fusion guard keeps the tokens apart then), rotating over the generated programs:
     # a run with one option isolates that option's rule, so a known fusion elsewhere cannot mask it
     gen_jobs = [j for j in jobs if j.name.endswith(".0")]
+    with_pp = [j for j in gen_jobs if "#define N " in j.meta["text"] and "#define MAX(" in j.meta["text"]] or gen_jobs
     for n, o in enumerate(sp):
-        for r in range(3 if thorough else 1):
-            j0 = gen_jobs[(n * 7 + r * 13) % len(gen_jobs)]
+        for r in range(3 if thorough else 2):
+            # the second program of an option always holds object-like and function-like macros (rules about directives)
+            j0 = gen_jobs[(n * 7 + r * 13) % len(gen_jobs)] if r != 1 else with_pp[n % len(with_pp)]
             opts = {o: "remove"}
             jobs.append(pipeline.Job("single-remove.%s.%d" % (o, r), sc.cfg(None, opts), j0.inp, j0.lang,
                                      {"kind": "gen", "text": j0.meta["text"], "opts": opts}))
